@@ -7,7 +7,7 @@ log=/tmp/t/seed-$name.log
 rm -rf $wt; git -C /repo worktree prune; git -C /repo worktree add --detach $wt HEAD -q || exit 2
 {
 echo "== demo on clean tree"; (cd $wt && PYTHONPATH=$wt/src timeout 300 /venv/bin/python $src/demo.py >/dev/null 2>&1); c0=$?
-(cd $wt && git apply $src/patch.diff) || { echo "PATCH DOES NOT APPLY"; git -C /repo worktree remove --force $wt; exit 3; }
+(cd $wt && { git apply $src/patch.diff 2>/dev/null || git apply --3way $src/patch.diff; }) || { echo "PATCH DOES NOT APPLY"; git -C /repo worktree remove --force $wt; exit 3; }
 echo "== demo on patched tree"; (cd $wt && PYTHONPATH=$wt/src timeout 300 /venv/bin/python $src/demo.py >/dev/null 2>&1); c1=$?
 echo "== test suite on patched tree"; suite=$(cd $wt && PYTHONPATH=$wt/src timeout 1500 /venv/bin/python -m pytest -q -p no:cacheprovider --timeout=900 tests 2>&1 | grep -E "passed|failed" | tail -1)
 echo "== check"; (cd /verif && QVERIF_REPO=$wt timeout 3000 ./check $id --tier quick > /tmp/t/seed-$name.check.log 2>&1); ck=$?
